@@ -153,6 +153,17 @@ C18_ByzFrozenOnce ==
                 (f.key = p /\ f.due > H /\ f.due <= H + Cfg.unbond) =>
                    \E g \in Range(st'.frozen) : g.due = f.due /\ g.o = f.o /\ g.c = f.c /\ g.key = p /\ g.to = f.to /\ g.v = KeepOf(f.v),
           [at |-> Where, evidence |-> ev'.begin.evidence, before |-> [p \in EvSet |-> FrozenOf(st, p)], after |-> [p \in EvSet |-> FrozenOf(st', p)]])
+\* a fund of the punished candidate that falls due in the evidence block itself is cut before it is released: its owner (or the target of a
+\* move) receives the remaining 95%
+DueNowAll == SelectSeq(st.frozen, LAMBDA f : f.due = H)
+CutCredit(a, c) == SumOver(SelectSeq(DueNowAll, LAMBDA f : f.o = a /\ f.c = c /\ f.to = 0), LAMBDA f : IF f.key \in EvSet THEN KeepOf(f.v) ELSE f.v)
+C18_ByzDueNow ==
+   Clause("C18", "FundsDueInTheEvidenceBlockAreCutToo", IsKind("BeginBlock") /\ NoPanic /\ EvSet # {} /\ (\E f \in Range(DueNowAll) : f.key \in EvSet),
+          /\ \A a \in AllAccounts(st, st'), c \in AllCoins(st, st') : Bal(st', a, c) = Bal(st, a, c) ++ CutCredit(a, c)
+          /\ \A f \in Range(DueNowAll) : (f.key \in EvSet /\ f.to # 0) =>
+                \E p \in CandById(st', f.to) : \E u \in Range(st'.cands[p].upd) : u.o = f.o /\ u.c = f.c /\ u.v = KeepOf(f.v),
+          [at |-> Where, evidence |-> EvSet, dueNow |-> DueNowAll,
+           wrongBalances |-> {ac \in AllAccounts(st, st') \X AllCoins(st, st') : Bal(st', ac[1], ac[2]) # Bal(st, ac[1], ac[2]) ++ CutCredit(ac[1], ac[2])}])
 C18_ByzSlashedPool ==
    Clause("C18", "SlashedValueGoesToTotalSlashed", IsKind("BeginBlock") /\ NoPanic /\ EvSet # {}
                  /\ (\A p \in EvSet : \A s \in Range(st.cands[p].stakes) : s.c = Base) /\ (\A f \in Range(st.frozen) : f.c = Base),
@@ -166,7 +177,7 @@ C18_NoDoublePunish ==
           /\ \A p \in DOMAIN st.cands \cap DOMAIN st'.cands : BagOf(st'.cands[p].stakes) = BagOf(st.cands[p].stakes)
           /\ BagOf(st'.frozen) = BagOf(SelectSeq(st.frozen, LAMBDA f : f.due # H)),
           [at |-> Where, evidence |-> ev'.begin.evidence])
-C18_Step == C18_Marks /\ C18_Absent /\ C18_OnlyThen /\ C18_Jail /\ C18_ByzStakes /\ C18_ByzFrozenOnce /\ C18_ByzSlashedPool /\ C18_NoDoublePunish
+C18_Step == C18_Marks /\ C18_Absent /\ C18_OnlyThen /\ C18_Jail /\ C18_ByzStakes /\ C18_ByzFrozenOnce /\ C18_ByzDueNow /\ C18_ByzSlashedPool /\ C18_NoDoublePunish
 
 \* ======================================================================== C20
 Present(p) == p \in Range(ev'.begin.present)
